@@ -21,9 +21,9 @@ from .version import LATEST_VER, VER_3_0, Version
 from .zoneinfo import timezone_name
 
 # Characters that need escaping: the delimiters, everything outside ASCII and
-# the control characters that have no short escape (\b \f \n \r \t are
-# handled by STR_SUB).
-URI_META = re.compile(r'([\\`\x00-\x07\x0b\x0e-\x1f\u0080-\uffff])')
+# the control characters.  In a string \b \f \n \r \t have a short escape
+# (handled by STR_SUB); the grammar of a URI has none of them.
+URI_META = re.compile(r'([\\`\x00-\x1f\u0080-\uffff])')
 STR_META = re.compile(r'([\\"\$\x00-\x07\x0b\x0e-\x1f\u0080-\uffff])')
 
 
@@ -186,9 +186,6 @@ def dump_str(str_value, version=LATEST_VER):
 def dump_uri(uri_value, version=LATEST_VER):
     # Replace special characters.
     uri_value = URI_META.sub(uri_sub, uri_value)
-    # Replace other escapes.
-    for orig, esc in STR_SUB:
-        uri_value = uri_value.replace(orig, esc)
     return '`%s`' % uri_value
 
 
